@@ -322,3 +322,15 @@ package api
 //@   ensures result2 != nil ==> ackedIDs == old(ackedIDs) && writeFailures == old(writeFailures) + 1
 //@   ensures result2 == nil ==> writeFailures == old(writeFailures)
 //@   modifies ackedIDs, writeCalls, writeFailures
+
+// ---- C04 / C17: ids of the pending-drop messages ------------------------------------------------------------------
+//@ func GetDropCollectionMsgID
+//@   props C04 C17
+//@   ensures result == "drop-collection-" + itoa(collectionID)
+//@   modifies nothing
+//@   panics never
+//@ func GetDropPartitionMsgID
+//@   props C04 C17
+//@   ensures result == "drop-partition-" + itoa(collectionID) + "-" + itoa(partitionID)
+//@   modifies nothing
+//@   panics never
